@@ -12,7 +12,7 @@ All theorems quantify over **all widths** (`0`, `> 64`, `> 128` included — no 
 operand values**; `toNat` / `toInt` read a vector as an unsigned / two's-complement number.  Definitions compared
 against: `C03/Spec.lean`.  Statements only; the work is in `C03/Lemmas*.lean`.
 
-Three places where the code does *not* compute the definition are stated as theorems as well (`…_defect`), with the
+Places where the code does *not* compute the definition are stated as theorems as well (`…_defect`), with the
 concrete witness the check re-discovers on the real code.
 -/
 namespace Gatery.C03.Props
@@ -185,12 +185,16 @@ theorem fe_mux (pol : Pol) (sel : BV4) (table : List BV4) (w : Nat) (hsel : sel.
 
 /-! ## defects of the signed operators built from unsigned nodes (`SignalCompareOp.cpp:37-48`, `SignalArithmeticOp.cpp:49-77`) -/
 
-/-- `lt(SInt, SInt)` is `(lhs - rhs).sign()`: wrong whenever the difference overflows.  `-2 < 1` on 2 bits evaluates to 0.
-    Re-discovered by the check as `op=lt|gt|leq|geq class=signed-difference-overflows`. -/
-theorem signed_lt_defect :
-    slt .none .none [.f, .t] [.t, .f] = .ok [.f] ∧ Spec.scmp .LT [.f, .t] [.t, .f] = [.t] ∧
-    toInt [.f, .t] = -2 ∧ toInt [.t, .f] = 1 := by
-  refine ⟨rfl, by decide, by decide, by decide⟩
+/-- `lt(SInt, SInt)` = sign of the difference taken in one bit more than the wider operand (`SignalCompareOp.cpp:40-48`, after
+    the repair `ff2206d`; before it the same-width difference overflowed: `-2 < 1` on 2 bits evaluated to 0 — the check
+    re-discovered that as `op=lt|gt|leq|geq class=signed-difference-overflows`).  Full statement, not yet proved for all
+    widths: `∀ a b, a.length ≥ 1 → b.length ≥ 1 → a.allDef → b.allDef → slt a b = .ok (Spec.scmp .LT a b)`; checked by the
+    correspondence on every generated case, and here on the former counterexample and on a mixed-width instance. -/
+theorem signed_lt_partial :
+    slt [.f, .t] [.t, .f] = .ok (Spec.scmp .LT [.f, .t] [.t, .f]) ∧ Spec.scmp .LT [.f, .t] [.t, .f] = [.t] ∧
+    toInt [.f, .t] = -2 ∧ toInt [.t, .f] = 1 ∧
+    sgeq [.t, .t, .t] [.f, .t, .f, .f, .t] = .ok (Spec.scmp .GEQ [.t, .t, .t] [.f, .t, .f, .f, .t]) := by
+  refine ⟨rfl, by decide, by decide, by decide, rfl⟩
 
 /-- `mul(SInt, SInt)` of different widths multiplies `abs` values that inherit the operand's *sign* expansion policy:
     `sext(-2 : 2 bit) * (1 : 4 bit)` evaluates to `+2`.  Re-discovered by the check as `op=mul class=mixed-widths/…`. -/
